@@ -557,6 +557,8 @@ func genCase(t *rapid.T, env *ev.Env) Case {
 		q.Chunks = append(q.Chunks, 1000)
 	}
 	q.Trailer = rapid.SampledFrom([]string{"crc32", "crc32c", "crc64nvme", "sha1", "sha256"}).Draw(t, "trailer")
+	// a third of the uploads declare the trailer in another spelling (header names are case-insensitive)
+	q.TrailerDeclCase = rapid.SampledFrom([]string{"", "", "mixed", "upper", ""}).Draw(t, "trailerDeclCase")
 	q.Framing = rapid.SampledFrom([]string{"sdk", "sdk", "doc"}).Draw(t, "framing")
 	if rapid.IntRange(0, 3).Draw(t, "enc2") == 0 {
 		q.Encoding2 = rapid.SampledFrom([]string{"gzip", " gzip", "br"}).Draw(t, "enc2v")
@@ -618,6 +620,11 @@ func directed(env *ev.Env) []Case {
 	}
 	// empty payload and a single chunk
 	for _, mode := range []string{sigreq.ModeStream, sigreq.ModeStreamTrailer, sigreq.ModeUnsignedTrailer} {
+		if mode != sigreq.ModeStream {
+			// trailer declared in mixed case: the upload is valid, a flipped data byte / changed or removed trailer is not
+			cs = append(cs, Case{Auth: "enabled", Target: "put", Stack: "sql", Req: sigreq.Req{Mode: mode, Region: "us-east-1", Body: gen.BodySpec{Kind: "text", Len: 150}, Chunks: []int{64}, Trailer: "crc32", TrailerDeclCase: "mixed", Framing: "sdk"},
+				Muts: []Mut{{Kind: "data-flip", Chunk: 1, Off: 3}, {Kind: "trailer-value", Off: 2}, {Kind: "trailer-remove"}}})
+		}
 		cs = append(cs, Case{Auth: "enabled", Target: "put", Stack: "sql", Req: sigreq.Req{Mode: mode, Region: "us-east-1", Body: gen.BodySpec{Kind: "text", Len: 0}, Chunks: []int{64}, Trailer: "crc32", Framing: "sdk"},
 			Muts: []Mut{{Kind: "chunk-sig"}, {Kind: "trailer-value"}, {Kind: "trailer-sig"}}})
 	}
